@@ -3,7 +3,7 @@
 (* events over Tags with nesting at most MaxDepth, an exception possible at    *)
 (* every point.                                                                *)
 EXTENDS DisplayHookOps, TLC, Json, IOUtils
-CONSTANTS Tags, MaxEvents, MaxDepth, DispVals
+CONSTANTS Tags, MaxEvents, MaxDepth, DispVals, CaughtVals
 
 VARIABLES st, n, hookAtEnter, delivered, entered, hist
 vars == <<st, n, hookAtEnter, delivered, entered, hist>>
@@ -22,13 +22,16 @@ Enter(t, g) == /\ n < MaxEvents /\ Len(st.stack) < MaxDepth /\ n' = n + 1
                /\ UNCHANGED delivered
 Display(v) == /\ n < MaxEvents /\ n' = n + 1 /\ Take(Ev("Display", "", FALSE, v))
               /\ UNCHANGED <<hookAtEnter, delivered, entered>>
+DisplayC(v) == /\ n < MaxEvents /\ n' = n + 1 /\ Take(Ev("DisplayC", "", FALSE, v))
+               /\ UNCHANGED <<hookAtEnter, delivered, entered>>
 Raise == /\ n < MaxEvents /\ n' = n + 1 /\ Take(Ev("Raise", "", FALSE, ""))
          /\ UNCHANGED <<hookAtEnter, delivered, entered>>
 \* always enabled while a block is open (so that every program can finish)
 Exit == /\ st.stack # <<>> /\ Take(Ev("Exit", "", FALSE, ""))
         /\ delivered' = [delivered EXCEPT ![st.stack[Len(st.stack)].t] = @ + 1]
         /\ UNCHANGED <<n, hookAtEnter, entered>>
-Next == (\E t \in Tags, g \in BOOLEAN : Enter(t, g)) \/ (\E v \in DispVals : Display(v)) \/ Raise \/ Exit
+Next == (\E t \in Tags, g \in BOOLEAN : Enter(t, g)) \/ (\E v \in DispVals : Display(v)) \/ (\E v \in CaughtVals : DisplayC(v))
+        \/ Raise \/ Exit
 Spec == Init /\ [][Next]_vars
 
 \* C17 at design level
